@@ -87,7 +87,7 @@ func c08RoundTrip(e *Emitter, group string, src []byte, tags []string) {
 		e.Emit(c)
 		return
 	}
-	c.Coq = fmt.Sprintf("RoundTrip %s %s %s %s %s", before, coqHex([]byte(printed)), coqOpt(reterm, ok2), coqBool(stable), coqBool(unchanged))
+	c.Coq = fmt.Sprintf("RoundTrip %s %s %s %s %s %s", coqHex(src), before, coqHex([]byte(printed)), coqOpt(reterm, ok2), coqBool(stable), coqBool(unchanged))
 	e.Emit(c)
 }
 
